@@ -430,7 +430,15 @@ def growth(ctx):
     _expect(ctx, "R46.growth", c, ["growth_bad"], ["growth_good"])
 
 
-ALL = {"growth": growth, "aligned": aligned, "borrowed": borrowed, "wrapsum": wrapsum, "bitfield": bitfield, "masked_tail": masked_tail, "loopcursor": loopcursor, "scaledext": scaledext, "varint": varint, "threadcount": threadcount, "sizekind": sizekind, "lenext": lenext, "xxh": xxh, "signedoff": signedoff, "reqalloc": reqalloc, "fieldfit": fieldfit, "stalefield": stalefield, "hidden": hidden, "region_args": region_args, "widen": widen, "progress": progress, "lazyinit": lazyinit, "lanes": lanes, "atomic": atomic, "feasible": feasible, "endian": endian, "units": units, "alloc": alloc, "status": status, "ownership": ownership, "cursor": cursor, "arrays": arrays,
+def callstate(ctx):
+    from .rules import callstate as cs
+    c = _sub()
+    n = cs.check(c, ["src/controls.c"])
+    ctx.control("R47.call-state finds the control tables", n >= 2, str(n))
+    _expect(ctx, "R47.call-state", c, ["callstate_bad"], ["callstate_good"])
+
+
+ALL = {"callstate": callstate, "growth": growth, "aligned": aligned, "borrowed": borrowed, "wrapsum": wrapsum, "bitfield": bitfield, "masked_tail": masked_tail, "loopcursor": loopcursor, "scaledext": scaledext, "varint": varint, "threadcount": threadcount, "sizekind": sizekind, "lenext": lenext, "xxh": xxh, "signedoff": signedoff, "reqalloc": reqalloc, "fieldfit": fieldfit, "stalefield": stalefield, "hidden": hidden, "region_args": region_args, "widen": widen, "progress": progress, "lazyinit": lazyinit, "lanes": lanes, "atomic": atomic, "feasible": feasible, "endian": endian, "units": units, "alloc": alloc, "status": status, "ownership": ownership, "cursor": cursor, "arrays": arrays,
        "recursion": recursion, "narrowing": narrowing, "skeleton": skeleton, "must_pass": must_pass}
 
 
